@@ -52,7 +52,7 @@ Proof.
   { intros vlen hdr v Hle Hsk Hv Hl Hc.
     rewrite skipn_add in Hc.
     replace (off + n + (hdr + vlen))%nat with (off + n + hdr + vlen)%nat in Hc by lia.
-    destruct (parse_fields fu _ _) as [r|] eqn:Er; [|discriminate].
+    revert Hc. destruct (parse_fields fu _ _) as [r|] eqn:Er; intros Hc; cbv iota in Hc; [|discriminate Hc].
     inversion Hc; subst recs. apply IH in Er; [|exact Hle].
     change off with (f_from (mkF num typ off n (off + n + hdr) (off + n + hdr + vlen) v)).
     constructor; [|exact Er].
